@@ -383,6 +383,9 @@ func runCheck(p *PropDef, tier string, seed int64) int {
 	if p.ID == "C18" {
 		extra = safetySweep(cc, w)
 	}
+	if p.Locks {
+		extra = goCaptureObligations(cc, w)
+	}
 	if extra != nil {
 		all = append(all, extra.Obls...)
 	}
